@@ -35,6 +35,9 @@ MUTANTS = [
     ('M13', 'C10', 'representer.py', "        if not 'yaml_representers' in cls.__dict__:\n            cls.yaml_representers = cls.yaml_representers.copy()\n", "        if not 'yaml_representers' in cls.__dict__:\n            pass\n"),
     ('M14', 'C10', 'resolver.py', "implicit_resolvers[key] = cls.yaml_implicit_resolvers[key][:]", "implicit_resolvers[key] = cls.yaml_implicit_resolvers[key]"),
     ('M32', 'C10', '__init__.py', "        loader.UnsafeLoader.add_constructor(tag, constructor)\n    else:", "        loader.UnsafeLoader.add_constructor(tag, constructor)\n        loader.SafeLoader.add_constructor(tag, constructor)\n    else:"),
+    # C03: the two defects repaired by "fix:" commits, re-introduced (the check must fail on the pre-fix tree)
+    ('F1', 'C03', 'scanner.py', "                    if code > 0x10FFFF:\n", "                    if False:\n"),
+    ('F2', 'C03', 'scanner.py', "        try:\n            value = int(self.prefix(length))\n        except ValueError:\n", "        try:\n            value = int(self.prefix(length))\n        except ZeroDivisionError:\n"),
 ]
 
 
